@@ -91,33 +91,36 @@ def run(R):
     # ---------------------------------------------------------------- R3 encoder outcome table
     R.describe('C02.R3', 'EncodeBody::poll_frame: Ok(bytes) -> Frame::data(those bytes); (Err, Client) -> Err(same status); (Err, Server) -> trailers(to_header_map(same status)); end of source -> EncodeState::trailers()')
     with R.guard('C02.R3'):
-        pf = tonic.body(re.compile(r'codec::encode::EncodeBody<T, U> as http_body::Body>::poll_frame$'))
+        pf, rows = encode_body_rows(tonic)
         R.saw(pf)
-        radt = {v['name']: v['discr'] for v in tonic.adt('codec::encode::Role')['variants']}
+        R.note('EncodeBody::poll_frame outcome table: %r' % [{k: r[k] for k in ('ended', 'poll', 'item', 'res', 'role', 'kind')} for r in rows])
+        err_payload = lambda t: term_contains(t, lambda x: x and x[0] == 'variant' and x[2] == 'Err' and term_contains(x, lambda y: is_call(y, name='poll_next')))
+        ok_payload = lambda t: term_contains(t, lambda x: x and x[0] == 'variant' and x[2] == 'Ok' and term_contains(x, lambda y: is_call(y, name='poll_next')))
         got = {}
-        for bb in writers_of(pf, 0):
-            for w in block_writes(pf, bb, 0):
-                if w[0] != 'call' or w[3] not in ('into', 'from_residual'):
-                    continue
-                t = strip_refs(w[2][0]) if w[2] else ('x',)
-                gs = pf.edge_guards(bb)
-                role = [vals for s, vals, tm in gs if show(tm).startswith('discr(') and 'role' in show(tm)]
-                if term_contains(t, lambda x: is_call(x, name='data') and 'Frame' in x[1]):
-                    okd = term_contains(t, lambda x: x and x[0] == 'variant' and x[2] == 'Ok') and term_contains(t, lambda x: is_call(x, name='poll_next'))
-                    got['data'] = okd
-                    R.check(okd, 'C02.R3', 'ok->data', site(pf, bb), 'Frame::data(the bytes of the Ok item): %r' % okd)
-                elif t[0] == 'agg' and t[1].get('variant') == 'Some' and term_contains(t, lambda x: x and x[0] == 'agg' and x[1].get('variant') == 'Err'):
-                    oke = term_contains(t, lambda x: x and x[0] == 'variant' and x[2] == 'Err') and role == [[radt['Client']]]
-                    got['client-err'] = oke
-                    R.check(oke, 'C02.R3', 'err-client->err', site(pf, bb), 'Err(same status) in the client role: role guards %r' % role)
-                elif term_contains(t, lambda x: is_call(x, name='trailers') and 'Frame' in x[1]):
-                    okt = term_contains(t, lambda x: is_call(x, name='to_header_map') and term_contains(x, lambda y: y and y[0] == 'variant' and y[2] == 'Err')) and role == [[radt['Server']]]
-                    got['server-err'] = okt
-                    R.check(okt, 'C02.R3', 'err-server->trailers', site(pf, bb), 'trailers(to_header_map(same status)) in the server role: role guards %r' % role)
-                elif term_contains(t, lambda x: is_call(x, name='trailers') and 'EncodeState' in x[1]):
-                    got['end'] = True
-                    gs2 = [vals for s, vals, tm in gs if show(tm).startswith('discr(') and 'poll_next' in show(tm)]
-                    R.check(bool(gs2), 'C02.R3', 'none->state.trailers()', site(pf, bb), 'source end -> EncodeState::trailers(): guards %r' % gs2)
+        for r in rows:
+            st = site(pf, r['path'][-1])
+            if r['res'] == 'Ok':
+                okd = r['kind'] == 'data' and ok_payload(r['value'])
+                got['data'] = got.get('data', True) and okd
+                R.check(okd, 'C02.R3', 'ok->data', st, 'an Ok(bytes) item becomes Frame::data(those bytes): outcome %s' % r['kind'])
+            elif r['res'] == 'Err' and r['role'] == 'Client':
+                oke = r['kind'] == 'err' and err_payload(r['value']) and not has_fn(r['value'], 'to_header_map')
+                got['client-err'] = got.get('client-err', True) and oke
+                R.check(oke, 'C02.R3', 'err-client->err', st, 'client role: Err(status) item -> Err(that status): outcome %s' % r['kind'])
+            elif r['res'] == 'Err' and r['role'] == 'Server':
+                if r['kind'] == 'trailers':
+                    okt = term_contains(r['value'], lambda x: is_call(x, name='to_header_map') and err_payload(x))
+                    got['server-err'] = got.get('server-err', True) and okt
+                    R.check(okt, 'C02.R3', 'err-server->trailers', st, 'server role: Err(status) item -> trailers(to_header_map(that status)): %r' % okt)
+                else:
+                    # only the failure of to_header_map itself may surface as an error
+                    okx = r['kind'] == 'err' and has_fn(r['value'], 'to_header_map')
+                    R.check(okx, 'C02.R3', 'err-server->trailers:encoding-failure', st, 'server role, non-trailers outcome %s is the failure of to_header_map: %r' % (r['kind'], okx))
+            elif r['res'] == 'Err':
+                R.bad('C02.R3', 'err-role-undecided', st, 'an Err item is turned into %s without looking at the role' % r['kind'])
+            elif r['item'] == 'None':
+                got['end'] = got.get('end', True) and r['kind'] == 'state-trailers'
+                R.check(r['kind'] == 'state-trailers', 'C02.R3', 'none->state.trailers()', st, 'end of the source -> EncodeState::trailers(): outcome %s' % r['kind'])
         for k in ('data', 'client-err', 'server-err', 'end'):
             R.check(got.get(k) is not None, 'C02.R3', 'row-present:%s' % k, site(pf), 'outcome row %s recognised: %r' % (k, got.get(k)))
 
@@ -210,7 +213,7 @@ def run(R):
                 nsome += 1
                 R.check(lg in (('is_data', True), ('discr:into_data', [0])), 'C02.R4', 'data-frame->continue', site(pfr, bb_, i_), 'Ok(Some(())) is produced for every data frame (decided by %r alone)' % (lg,))
             elif v[0] == 'agg' and v[1].get('variant') == 'None':
-                R.check(lg in (('is_trailers', True), ('has_remaining', False), ('eq', True), ('discr:into_trailers', [0])), 'C02.R4', 'end-of-body-only-when:%s' % lg[0], site(pfr, bb_, i_),
+                R.check(lg in (('is_trailers', True), ('has_remaining', False), ('is_empty', True), ('eq', True), ('discr:into_trailers', [0])), 'C02.R4', 'end-of-body-only-when:%s' % lg[0], site(pfr, bb_, i_),
                         'Ok(None) (stop reading) only for a trailers frame, the end of the body with an empty buffer, or a cancelled request: decided by %r' % (lg,))
             else:
                 R.bad('C02.R4', 'poll_frame-outcome-unrecognised', site(pfr, bb_, i_), 'Ok(%s): neither Some(()) nor None as a constant — a data frame could be reported as the end of the body' % show(v)[:80], kind='UNRECOGNISED')
